@@ -172,52 +172,106 @@ theorem C09_fuel_irrelevant (E : Env α β υ ε σ) (m : Nat) (hc : E.clamp = t
       synchronize E (fuelBound pods ctrs) w pods ctrs :=
   run_mono E _ k w _ (C09_terminates E m hc hπ _ w pods ctrs (Nat.le_refl _))
 
-/-- **C09_complete.** The repaired loop gives up with "failed to synchronize plugin with
-    split messages" only after the transport refused a message of at most `m` objects
-    (consecutive pods and consecutive containers of the state). Contrapositive: a state in
-    which every such small message fits is always synchronised. -/
+/-- **C09_complete.** The repaired loop ends with "failed to synchronize plugin with split
+    messages" only after the transport refused a message of at most `m` objects (consecutive
+    pods and consecutive containers of the state) — or after the plugin end answered with an
+    error carrying the status ResourceExhausted, which `recalcObjsPerSyncMsg` reports with the
+    same text. Contrapositive: a state in which every such small message fits is always
+    synchronised unless the plugin end itself fails. -/
 theorem C09_complete (E : Env α β υ ε σ) (m : Nat) (hc : E.clamp = true) (hπ : Shrinks m E.policy)
     (hlim : 0 < E.limit) (fuel : Nat) (w : σ) (pods : List α) (ctrs : List β)
     (h : (synchronize E fuel w pods ctrs).out = .failed .tooLarge) :
-    ∃ c : Chunk α β, c.pods <:+: pods ∧ c.ctrs <:+: ctrs ∧ c.count ≤ m ∧ E.limit < E.size c :=
-  let ⟨c, h1, h2, h3, h4, _⟩ := run_tooLarge E m hc hπ hlim pods ctrs fuel w _ (good_init pods ctrs)
-    (List.suffix_refl _) (List.suffix_refl _) h
-  ⟨c, h1, h2, h3, h4⟩
+    (∃ c : Chunk α β, c.pods <:+: pods ∧ c.ctrs <:+: ctrs ∧ c.count ≤ m ∧ E.limit < E.size c) ∨
+    (∃ c : Chunk α β, Ev.errored c ∈ (synchronize E fuel w pods ctrs).evs) := by
+  rcases run_tooLarge E m hc hπ hlim pods ctrs fuel w _ (good_init pods ctrs)
+    (List.suffix_refl _) (List.suffix_refl _) h with ⟨c, h1, h2, h3, h4, _⟩ | h5
+  · exact .inl ⟨c, h1, h2, h3, h4⟩
+  · exact .inr h5
 
-/-- **C09_delivery** (sender and receiver composed — the property itself). The repaired
-    sender talking to the stub, with enough fuel: either it gives up before the plugin's
-    handler was ever called (the state cannot be transmitted under the policy), or the
-    handler was called exactly once, with exactly the supplied pods and containers in the
-    runtime's order, and what `synchronize` returns is the handler's own answer — its updates,
-    or its error. The sender never mistakes the stub for a plugin that cannot take split
-    requests, never faults and never runs on. -/
-theorem C09_delivery (E : Env α β υ ε (RState α β)) (m : Nat) (hc : E.clamp = true)
-    (hπ : Shrinks m E.policy) (f : List α → List β → Except ε (List υ))
-    (hpeer : E.peer = stubRPC (some f)) (fuel : Nat) (pods : List α) (ctrs : List β)
-    (hf : fuelBound pods ctrs ≤ fuel) :
+/-- **C09_delivery** (sender and receiver composed, behind a transport that also limits the
+    REPLY — the property itself). The repaired sender talking to the stub, with enough fuel:
+    either it gives up on its own before the plugin's handler was ever called (and then a
+    message of at most `m` consecutive objects exceeds the limit), or the handler was called
+    exactly once, with exactly the supplied pods and containers in the runtime's order, and
+    what `synchronize` returns is `wireOutcome`: the handler's updates if the reply fits under
+    the transport's limit; a failure (the request deadline) if the reply is larger and gets
+    dropped; the handler's error otherwise. The sender never mistakes the stub for a plugin
+    that cannot take split requests, never faults and never runs on. -/
+theorem C09_delivery (E : Env α β υ (WireErr ε) (RState α β)) (m : Nat) (hc : E.clamp = true)
+    (hπ : Shrinks m E.policy) (hlim : 0 < E.limit) (rs : Reply υ → Nat) (rl : Nat)
+    (hecho : rs ⟨[], true⟩ ≤ rl) (hx : ε → Bool) (f : List α → List β → Except ε (List υ))
+    (hpeer : E.peer = wireStub rs rl (some f)) (hex : E.exhausted = wireExhausted hx)
+    (fuel : Nat) (pods : List α) (ctrs : List β) (hf : fuelBound pods ctrs ≤ fuel) :
     let r := synchronize E fuel RState.init pods ctrs
-    (r.out = .failed .tooLarge ∧ r.world.calls = []) ∨
+    (r.out = .failed .tooLarge ∧ r.world.calls = [] ∧
+      ∃ c : Chunk α β, c.pods <:+: pods ∧ c.ctrs <:+: ctrs ∧ c.count ≤ m ∧ E.limit < E.size c) ∨
     (r.world.calls = [(pods, ctrs)] ∧ r.world.acc = none ∧
-      r.out = match f pods ctrs with
-        | .ok u => .done u
-        | .error e => .failed (.peer e)) := by
+      r.out = wireOutcome rs rl hx f pods ctrs) := by
   intro r
-  have h := run_stub E m hc hπ f hpeer pods ctrs fuel RState.init _ (good_init pods ctrs) rfl
+  have h := run_wire E m hc hπ hlim rs rl hecho hx f hpeer hex pods ctrs fuel RState.init _
+    (good_init pods ctrs) rfl
     (by simp [accPods, RState.init, SState.init]) (by simp [accCtrs, RState.init, SState.init])
   have ht := C09_terminates E m hc hπ fuel RState.init pods ctrs hf
-  rcases h with ⟨h1 | h1, h2⟩ | ⟨h1, h2, h3⟩
-  · exact .inl ⟨h1, h2⟩
+  rcases h with h | ⟨h1, _⟩ | ⟨h1, h2, h3⟩
+  · exact .inl h
   · exact absurd h1 ht
   · exact .inr ⟨h2, h3, h1⟩
 
+/-- **C09_updates_reach_runtime.** The positive half with its hypotheses spelled out: when every
+    message of at most `m` consecutive objects fits, the handler succeeds and its reply fits
+    under the transport's limit, `synchronize` returns exactly the handler's updates, after
+    exactly one call with exactly the supplied state. -/
+theorem C09_updates_reach_runtime (E : Env α β υ (WireErr ε) (RState α β)) (m : Nat)
+    (hc : E.clamp = true) (hπ : Shrinks m E.policy) (hlim : 0 < E.limit) (rs : Reply υ → Nat)
+    (rl : Nat) (hecho : rs ⟨[], true⟩ ≤ rl) (hx : ε → Bool)
+    (f : List α → List β → Except ε (List υ))
+    (hpeer : E.peer = wireStub rs rl (some f)) (hex : E.exhausted = wireExhausted hx)
+    (fuel : Nat) (pods : List α) (ctrs : List β) (hf : fuelBound pods ctrs ≤ fuel)
+    (hsmall : ∀ c : Chunk α β, c.pods <:+: pods → c.ctrs <:+: ctrs → c.count ≤ m → E.size c ≤ E.limit)
+    (u : List υ) (hu : f pods ctrs = .ok u) (hfit : rs ⟨u, false⟩ ≤ rl) :
+    let r := synchronize E fuel RState.init pods ctrs
+    r.out = .done u ∧ r.world.calls = [(pods, ctrs)] := by
+  intro r
+  rcases C09_delivery E m hc hπ hlim rs rl hecho hx f hpeer hex fuel pods ctrs hf with
+    ⟨_, _, c, h1, h2, h3, h4⟩ | ⟨h1, _, h3⟩
+  · exact absurd (hsmall c h1 h2 h3) (Nat.not_le_of_lt h4)
+  · refine ⟨?_, h1⟩
+    rw [h3]; simp [wireOutcome, hu, hfit]
+
+/-- **C09_reply_too_large.** The clean-failure half for the reply: when the handler's updates do
+    not fit into one reply under the transport's limit, `synchronize` does NOT succeed — it ends
+    with an error (in Go: the request deadline, the reply having been dropped by the stub's ttrpc
+    server) and the registering plugin is not activated; the handler may have been called (once,
+    with the full state) but never with anything else. -/
+theorem C09_reply_too_large {π : Type} (E : Env α β υ (WireErr ε) (RState α β)) (m : Nat)
+    (hc : E.clamp = true) (hπ : Shrinks m E.policy) (hlim : 0 < E.limit) (rs : Reply υ → Nat)
+    (rl : Nat) (hecho : rs ⟨[], true⟩ ≤ rl) (hx : ε → Bool)
+    (f : List α → List β → Except ε (List υ))
+    (hpeer : E.peer = wireStub rs rl (some f)) (hex : E.exhausted = wireExhausted hx)
+    (fuel : Nat) (pods : List α) (ctrs : List β) (hf : fuelBound pods ctrs ≤ fuel)
+    (u : List υ) (hu : f pods ctrs = .ok u) (hbig : rl < rs ⟨u, false⟩)
+    (plugins : List π) (p : π) :
+    let r := synchronize E fuel RState.init pods ctrs
+    (∃ e, r.out = .failed e) ∧ activateExternal plugins p r.out = plugins ∧
+      (r.world.calls = [] ∨ r.world.calls = [(pods, ctrs)]) := by
+  intro r
+  rcases C09_delivery E m hc hπ hlim rs rl hecho hx f hpeer hex fuel pods ctrs hf with
+    ⟨h1, h2, _⟩ | ⟨h1, _, h3⟩
+  · exact ⟨⟨_, h1⟩, by simp only [r, h1, activateExternal], .inl h2⟩
+  · have : r.out = .failed (.peer .replyLost) := by
+      rw [h3]; simp [wireOutcome, hu, Nat.not_le_of_lt hbig]
+    exact ⟨⟨_, this⟩, by simp only [r, this, activateExternal], .inr h1⟩
+
 /-- The same against a plugin without a `Synchronize` handler: no updates, nothing called. -/
-theorem C09_delivery_no_handler (E : Env α β υ ε (RState α β)) (m : Nat) (hc : E.clamp = true)
-    (hπ : Shrinks m E.policy) (hpeer : E.peer = stubRPC (none : Handler α β υ ε)) (fuel : Nat)
+theorem C09_delivery_no_handler (E : Env α β υ (WireErr ε) (RState α β)) (m : Nat)
+    (hc : E.clamp = true) (hπ : Shrinks m E.policy) (rs : Reply υ → Nat) (rl : Nat)
+    (hecho : ∀ b, rs ⟨[], b⟩ ≤ rl)
+    (hpeer : E.peer = wireStub rs rl (none : Handler α β υ ε)) (fuel : Nat)
     (pods : List α) (ctrs : List β) (hf : fuelBound pods ctrs ≤ fuel) :
     let r := synchronize E fuel RState.init pods ctrs
     r.world = RState.init ∧ (r.out = .done [] ∨ r.out = .failed .tooLarge) := by
   intro r
-  have h := run_noHandler E m hc hπ hpeer fuel RState.init _ (good_init pods ctrs)
+  have h := run_noHandler E m hc hπ rs rl hecho hpeer fuel RState.init _ (good_init pods ctrs)
   have ht := C09_terminates E m hc hπ fuel RState.init pods ctrs hf
   rcases h with ⟨h1, h2 | h2 | h2⟩
   · exact ⟨h1, .inl h2⟩
@@ -231,27 +285,45 @@ theorem C09_policy (m : Nat) (hm : 2 ≤ m) : Shrinks m (policyFixed m) :=
 
 example : ∃ π, Shrinks 8 π := ⟨policyFixed 8, C09_policy 8 (by decide)⟩
 
+/-- the patched Go code as transcribed, against the stub behind the transport -/
+def patchedEnv (size : Chunk α β → Nat) (limit : Nat) (rs : Reply υ → Nat) (rl : Nat)
+    (hx : ε → Bool) (f : List α → List β → Except ε (List υ)) :
+    Env α β υ (WireErr ε) (RState α β) :=
+  { size := size, limit := limit, policy := policyFixed 8, clamp := true,
+    peer := wireStub rs rl (some f), exhausted := wireExhausted hx }
+
 /-- **C09_patched.** The property for the patched Go code as transcribed (`clamp`, `policyFixed 8`),
-    for every size oracle and limit, against the stub with any handler: the handler is called
-    exactly once with exactly the supplied state and its answer is returned — or the sender
-    gave up before any call, and then some message of at most 8 consecutive objects exceeds
-    the limit. -/
+    for every size oracle and limit for requests and for replies, against the stub with any
+    handler: the handler is called exactly once with exactly the supplied state and
+    `synchronize` returns `wireOutcome` (its updates when the reply fits; a failure when the
+    reply is too large to be sent back; its error) — or the sender gave up before any call, and
+    then some message of at most 8 consecutive objects exceeds the limit. -/
 theorem C09_patched (size : Chunk α β → Nat) (limit : Nat) (hlim : 0 < limit)
+    (rs : Reply υ → Nat) (rl : Nat) (hecho : rs ⟨[], true⟩ ≤ rl) (hx : ε → Bool)
     (f : List α → List β → Except ε (List υ)) (pods : List α) (ctrs : List β) :
-    let E : Env α β υ ε (RState α β) :=
-      { size := size, limit := limit, policy := policyFixed 8, clamp := true, peer := stubRPC (some f) }
-    let r := synchronize E (fuelBound pods ctrs) RState.init pods ctrs
+    let r := synchronize (patchedEnv size limit rs rl hx f) (fuelBound pods ctrs) RState.init pods ctrs
     (r.out = .failed .tooLarge ∧ r.world.calls = [] ∧
         ∃ c : Chunk α β, c.pods <:+: pods ∧ c.ctrs <:+: ctrs ∧ c.count ≤ 8 ∧ limit < size c) ∨
     (r.world.calls = [(pods, ctrs)] ∧ r.world.acc = none ∧
-      r.out = match f pods ctrs with
-        | .ok u => .done u
-        | .error e => .failed (.peer e)) := by
-  intro E r
-  have hπ : Shrinks 8 E.policy := C09_policy 8 (by decide)
-  rcases C09_delivery E 8 rfl hπ f rfl (fuelBound pods ctrs) pods ctrs (Nat.le_refl _) with ⟨h1, h2⟩ | h
-  · exact .inl ⟨h1, h2, C09_complete E 8 rfl hπ hlim _ _ pods ctrs h1⟩
-  · exact .inr h
+      r.out = wireOutcome rs rl hx f pods ctrs) :=
+  C09_delivery (patchedEnv size limit rs rl hx f) 8 rfl (C09_policy 8 (by decide)) hlim rs rl hecho
+    hx f rfl rfl (fuelBound pods ctrs) pods ctrs (Nat.le_refl _)
+
+/-- replies measured by their number of updates, at most 3 per reply: the echo fits -/
+example : (fun (r : Reply Nat) => r.update.length) ⟨[], true⟩ ≤ 3 := by decide
+
+/-- **reply_too_large_witness.** Concretely: 2 pods, 3 containers, everything fits into one
+    request; the handler answers with 4 updates where the transport carries 3. The handler has
+    been called once with the whole state, the sender ends with the lost-reply error, nothing
+    comes back. With 3 updates they all come back. -/
+theorem reply_too_large_witness :
+    let big := synchronize (patchedEnv (plainSize id id) 4000 (fun r => r.update.length) 3
+      (fun (_ : Unit) => false) (fun _ (cs : List Nat) => .ok (cs ++ [7]))) 20 RState.init [1, 1] [5, 5, 5]
+    let ok := synchronize (patchedEnv (plainSize id id) 4000 (fun r => r.update.length) 3
+      (fun (_ : Unit) => false) (fun _ (cs : List Nat) => .ok cs)) 20 RState.init [1, 1] [5, 5, 5]
+    big.out = .failed (.peer .replyLost) ∧ big.world.calls = [([1, 1], [5, 5, 5])] ∧
+      ok.out = .done [5, 5, 5] ∧ ok.world.calls = [([1, 1], [5, 5, 5])] := by
+  decide
 
 /-! ### Trace acceptance (what ties the sender model to the real executions) -/
 
@@ -310,8 +382,55 @@ theorem C09_clean_fail {π : Type} (E : Env α β υ ε σ) (m : Nat) (hc : E.cl
   · intro e he; simp only [he, activateExternal]
   · intro u hu; simp only [hu, activateExternal]
 
-/-- Pre-installed plugins (`startPlugins.syncPlugins`): exactly the plugins whose
-    synchronisation succeeded are kept, in order, and the updates are theirs. -/
+/-- **C09_activated_delivered.** Activation implies delivery: if the registering plugin ends up in
+    the active list, then its handler has been called exactly once, with exactly the supplied
+    state, it succeeded, its reply fitted under the transport's limit and `synchronize` returned
+    exactly its updates. -/
+theorem C09_activated_delivered {π : Type} (E : Env α β υ (WireErr ε) (RState α β)) (m : Nat)
+    (hc : E.clamp = true) (hπ : Shrinks m E.policy) (hlim : 0 < E.limit) (rs : Reply υ → Nat)
+    (rl : Nat) (hecho : rs ⟨[], true⟩ ≤ rl) (hx : ε → Bool)
+    (f : List α → List β → Except ε (List υ))
+    (hpeer : E.peer = wireStub rs rl (some f)) (hex : E.exhausted = wireExhausted hx)
+    (fuel : Nat) (pods : List α) (ctrs : List β) (hf : fuelBound pods ctrs ≤ fuel)
+    (plugins : List π) (p : π)
+    (hact : activateExternal plugins p (synchronize E fuel RState.init pods ctrs).out ≠ plugins) :
+    let r := synchronize E fuel RState.init pods ctrs
+    r.world.calls = [(pods, ctrs)] ∧ r.world.acc = none ∧
+      ∃ u, f pods ctrs = .ok u ∧ rs ⟨u, false⟩ ≤ rl ∧ r.out = .done u := by
+  intro r
+  rcases C09_delivery E m hc hπ hlim rs rl hecho hx f hpeer hex fuel pods ctrs hf with
+    ⟨h1, _, _⟩ | ⟨h1, h2, h3⟩
+  · exact absurd (by simp only [h1, activateExternal]) hact
+  · refine ⟨h1, h2, ?_⟩
+    have h3' : r.out = wireOutcome rs rl hx f pods ctrs := h3
+    cases hfo : f pods ctrs with
+    | error e =>
+      have : r.out = .failed (if hx e then .tooLarge else .peer (.handler e)) := by
+        rw [h3']; simp [wireOutcome, hfo]
+      exact absurd (by simp only [r, this, activateExternal]) hact
+    | ok u =>
+      by_cases hfit : rs ⟨u, false⟩ ≤ rl
+      · exact ⟨u, rfl, hfit, by rw [h3']; simp [wireOutcome, hfo, hfit]⟩
+      · have : r.out = .failed (.peer .replyLost) := by
+          rw [h3']; simp [wireOutcome, hfo, hfit]
+        exact absurd (by simp only [r, this, activateExternal]) hact
+
+/-- **C09_preinstalled_exact.** `startPlugins.syncPlugins` keeps EXACTLY the plugins whose
+    synchronisation succeeded, in their order, and hands the runtime's `SyncFn` EXACTLY the
+    concatenation of their updates, in that order. -/
+theorem C09_preinstalled_exact {π : Type} (rs : List (π × Outcome υ ε)) :
+    activatePreinstalled rs = (keptOf rs, updOf rs) := by
+  induction rs with
+  | nil => rfl
+  | cons x rest ih =>
+    obtain ⟨q, o⟩ := x
+    cases o <;> simp [activatePreinstalled, keptOf, updOf, ih]
+
+example : activatePreinstalled [("a", (Outcome.done [1, 2] : Outcome Nat Unit)),
+    ("b", .failed .tooLarge), ("c", .done [3])] = (["a", "c"], [1, 2, 3]) := by decide
+
+/-- Pre-installed plugins (`startPlugins.syncPlugins`): a kept plugin is one whose
+    synchronisation succeeded (a consequence of `C09_preinstalled_exact`). -/
 theorem C09_clean_fail_preinstalled {π : Type} (rs : List (π × Outcome υ ε)) (p : π) :
     p ∈ (activatePreinstalled rs).1 → ∃ u, (p, Outcome.done u) ∈ rs := by
   induction rs with
